@@ -343,7 +343,7 @@ def main():
         rec = {
             "property": prop, "tier": tier, "seed": seed, "kind": v["kind"],
             "input": v.get("input"), "observed": v.get("observed"), "expected": v.get("expected"),
-            "broken_obligations": broken, "all_violations": violations[:5],
+            "broken_obligations": broken, "all_violations": violations[:5], "mismatches": mismatches[:8],
             "rerun": f"./check {prop} --replay {rp}",
         }
         with open(os.path.join(VERIF, rp), "w") as fh:
